@@ -1,0 +1,16 @@
+//go:build verif
+
+package header
+
+import (
+	libhead "github.com/celestiaorg/go-header"
+
+	"github.com/celestiaorg/celestia-node/header"
+)
+
+// VerifNewSubscribeService builds the header Service around a header subscriber only, so that the
+// verification harness can drive Service.Subscribe (the header feed the blob module is wired to)
+// without a syncer, store or exchange server. Only compiled with build tag verif.
+func VerifNewSubscribeService(sub libhead.Subscriber[*header.ExtendedHeader]) *Service {
+	return &Service{sub: sub}
+}
